@@ -207,6 +207,8 @@ impl<K, V> RecursiveContext<K, V> where K: Hash + Eq + Debug + Clone, V: Debug +
         (dfn.index as int) < old(self).graph().nodes().len(),
         (depth.depth as int) < old(self).stk().flags().len(),
         dfn.index < usize::MAX,
+        // the caller's callback may be called
+        should_continue.requires(()),
     ensures
         final(self).graph().history().len() > 0,
         final(self).graph().history().last().goal == *canonical_goal,
@@ -230,6 +232,7 @@ impl<K, V> RecursiveContext<K, V> where K: Hash + Eq + Debug + Clone, V: Debug +
                 (dfn.index as int) < self.graph().nodes().len(),
                 (depth.depth as int) < self.stk().flags().len(),
                 dfn.index < usize::MAX,
+                should_continue.requires(()),
                 self.graph().nodes()[dfn.index as int].goal == old(self).graph().nodes()[dfn.index as int].goal,
 //@END
 
